@@ -60,7 +60,7 @@ def eval_num(r, values):
                 term = term * (values[a] ** int(e))
             tot = tot + term
         return tot
-    return ev_poly(r.n) / ev_poly(r.d)
+    return ev_poly(r.n) / ev_poly(r.d) if r.has_den() else ev_poly(r.n)
 
 
 def call(I, m, fname, **kw):
